@@ -9,10 +9,10 @@ git -C /repo worktree add -q --detach "$W" HEAD || exit 2
 build() { cmake -G Ninja -S "$W" -B "$1" -DCMAKE_BUILD_TYPE=RelWithDebInfo >/dev/null 2>&1 && cmake --build "$1" -j8 >/dev/null 2>&1; }
 build "$W/_b0" || { echo "baseline build failed"; }
 cp -r "$D/demo" "$W/demo_run"
-( cd "$W/demo_run" && BLOCH_NO_UPDATE_CHECK=1 sh ./run.sh "$W/_b0/bin/bloch" >/dev/null 2>&1 ); echo "demo on original tree: exit $? (expected 0)"
+( cd "$W/demo_run" && BLOCH_NO_UPDATE_CHECK=1 bash ./run.sh "$W/_b0/bin/bloch" >/dev/null 2>&1 ); echo "demo on original tree: exit $? (expected 0)"
 git -C "$W" apply "$D/patch.diff" || { echo "PATCH DOES NOT APPLY"; git -C /repo worktree remove --force "$W"; exit 1; }
 build "$W/_b1" || { echo "patched build FAILED"; }
 ( cd "$W/_b1" && ./bin/bloch_tests 2>&1 | tail -1 )
 rm -rf "$W/demo_run"; cp -r "$D/demo" "$W/demo_run"
-( cd "$W/demo_run" && BLOCH_NO_UPDATE_CHECK=1 sh ./run.sh "$W/_b1/bin/bloch" >/dev/null 2>&1 ); echo "demo with the patch: exit $? (expected 1)"
+( cd "$W/demo_run" && BLOCH_NO_UPDATE_CHECK=1 bash ./run.sh "$W/_b1/bin/bloch" >/dev/null 2>&1 ); echo "demo with the patch: exit $? (expected 1)"
 git -C /repo worktree remove --force "$W"; rm -rf "$W"
